@@ -40,7 +40,7 @@ RULE = (
 ASSUMPTIONS = [
     "single thread, real CurrentThread/Immediate schedulers (no virtual time); partner sources (of, never) are finite or silent",
     "scheduler configurations listed as open findings in known_findings.json are excluded by construction except for a thin sample (simple shapes + 1/16) and counted",
-    "a 60 s per-case process watchdog (os._exit) exists only as a backstop; its trip is a harness error, never a verdict",
+    "a per-case process watchdog (60 one-second wake-ups without progress, then os._exit) exists only as a backstop; its trip is a harness error, never a verdict",
     "'at source' configurations only exist for factories that accept a scheduler (from_iterable, range, the of(1) inside repeat)",
     "RecursionError (escaping or delivered as on_error) counts as unbounded work just like BudgetExceeded",
 ]
@@ -132,25 +132,33 @@ TERMS_MORE = [["take", 1], ["take_while_incl", 1], ["take_while", 1], ["element_
 # ---------------------------------------------------------------------------------------
 # watchdog (backstop only)
 
-_WD = {"thread": None, "since": None, "case": None}
-_WD_LIMIT = 60.0
+_WD = {"thread": None, "gen": 0, "active": False, "case": None}
+_WD_LIMIT = 60  # consecutive 1 s watchdog wake-ups during which one case made no progress
 
 
 def _wd_loop():
+    seen, ticks = -1, 0
     while True:
         time.sleep(1.0)
-        s = _WD["since"]
-        if s is not None and time.monotonic() - s > _WD_LIMIT:
-            sys.stderr.write(f"HARNESS-ERROR: C14 watchdog: case wedged for >{_WD_LIMIT}s: {_WD['case']}\n")
-            sys.stderr.flush()
-            os._exit(3)
+        # counts wake-ups rather than wall time so that a paused / starved machine does not trip it
+        if _WD["active"] and _WD["gen"] == seen:
+            ticks += 1
+            if ticks > _WD_LIMIT:
+                sys.stderr.write(f"HARNESS-ERROR: C14 watchdog: case wedged for >{_WD_LIMIT}s: {_WD['case']}\n")
+                sys.stderr.flush()
+                os._exit(3)
+        else:
+            seen, ticks = _WD["gen"], 0
 
 
 def _quiet_unraisable(unraisable):
     # generator finalisers hitting RecursionError while a runaway case unwinds: noise, not a verdict
-    if isinstance(unraisable.exc_value, (RecursionError, BudgetExceeded)):
-        return
-    sys.__unraisablehook__(unraisable)
+    try:
+        if isinstance(unraisable.exc_value, (RecursionError, BudgetExceeded)):
+            return
+        sys.__unraisablehook__(unraisable)
+    except RecursionError:
+        pass
 
 
 def _wd_enter(case):
@@ -160,11 +168,13 @@ def _wd_enter(case):
         _WD["thread"] = t
         t.start()
     _WD["case"] = case
-    _WD["since"] = time.monotonic()
+    _WD["gen"] += 1
+    _WD["active"] = True
 
 
 def _wd_leave():
-    _WD["since"] = None
+    _WD["active"] = False
+    _WD["gen"] += 1
 
 
 # ---------------------------------------------------------------------------------------
@@ -497,7 +507,7 @@ def _run_inner(case):
         raise HarnessError(f"configuration {cfg} does not exist for source {src}")
     n = _term_need(term)
     kind = cfg.split("@")[0]
-    if CFG_SIG.get(kind) in _OPEN and n >= 1 and (case["ew"] or case["wrap"] is not None):
+    if CFG_SIG.get(kind) in _OPEN and (case["ew"] or case["wrap"] is not None):
         if int(case_hash("c14", case), 16) % 16 != 0:
             return OK(False, [f"excluded-known-config:{kind}"])
     if case["wrap"] == "concat_prefix":
@@ -542,13 +552,7 @@ def _run_inner(case):
         if bud.n != pulls_ret:
             frozen = False
         if termev is None:
-            if pulls_ret > 2 * need + 10:
-                # the producer ran on far beyond what the terminator needs and only stopped by accident
-                # (in practice: a RecursionError swallowed inside the library)
-                runaway = True
-                symptom = "ran-on-without-terminal"
-            else:
-                symptom = "returned-without-terminal"
+            symptom = "returned-without-terminal"
         elif termev[0] == "E":
             if termev[2] == "RecursionError":
                 runaway = True
@@ -562,6 +566,11 @@ def _run_inner(case):
             symptom = "not-frozen"
         elif n_out != emits or rec.ev[-1] is not termev:
             symptom = "output-mismatch"
+    if symptom is not None and not runaway and bud.n > 2 * need + 10:
+        # any other failure that comes with far more production than the terminator needs is the same family:
+        # the producer was not stopped by the terminator but by accident (swallowed RecursionError)
+        runaway = True
+        symptom += "+overrun"
     if symptom is None:
         cls.append(f"post-terminal-pulls={pulls_ret - termev[1]}")
         return OK(n >= 1, cls)
